@@ -326,14 +326,24 @@ theorem WCtx.finishBatch_trel (c : WCtx) (batch : List WReq) (tail : Option WReq
   cases tail with
   | none =>
     simp only
-    have h := WCtx.toRecv_trel ((batch.filterMap WReq.cbId).foldl (fun c i => c.emit (.cb i ok))
-      { c with w := { c.w with lastSyncFailed := !ok } })
-    simpa [foldl_emit_w] using h
-  | some r =>
-    simp only
     have h := WCtx.nonFlush_trel ((batch.filterMap WReq.cbId).foldl (fun c i => c.emit (.cb i ok))
-      { c with w := { c.w with lastSyncFailed := !ok } }) r (ht r rfl)
-    simpa [foldl_emit_w] using h
+      { c with w := { c.w with lastSyncFailed := !ok } }) (.removeChunks []) rfl
+    intro x
+    rw [h x]
+    simp [foldl_emit_w, rmIds]
+  | some r =>
+    cases r with
+    | write u d cb => exact absurd (ht _ rfl) (by simp [WReq.isWrite])
+    | appendFile n p =>
+      simp only
+      intro x
+      rw [WCtx.nonFlush_trel _ (.removeChunks []) rfl x]
+      simp [foldl_emit_w, rmIds]
+    | removeChunks ids =>
+      simp only
+      have h := WCtx.nonFlush_trel ((batch.filterMap WReq.cbId).foldl (fun c i => c.emit (.cb i ok))
+        { c with w := { c.w with lastSyncFailed := !ok } }) (.removeChunks ids) rfl
+      simpa [foldl_emit_w] using h
 
 theorem WCtx.startSync_trel (c : WCtx) (batch : List WReq) (tail : Option WReq) (ht : tailOK tail) :
     TRel c.w.postponed (tail.toList ++ c.w.queue) (c.startSync batch tail).w := by
